@@ -157,7 +157,7 @@ def build(ctx, case, d):
     os.makedirs(ldir, exist_ok=True)
     order = sorted(libs, key=lambda l: 0 if not l["needs"] else 1)   # dependees first
     for l in order:
-        obj = tools.assemble(ctx, lib_asm(l, libs))
+        obj = tools.assemble(ctx, f"# case {os.path.basename(d)}\n" + lib_asm(l, libs))
         l["path"] = os.path.join("libs", f"libL{l['i']}.so")
         args = ["-shared", obj, "-o", l["path"]]
         if l["soname"]:
@@ -169,7 +169,7 @@ def build(ctx, case, d):
             return False
     case["objpaths"] = []
     for k in range(len(case["objs"])):
-        obj = tools.assemble(ctx, obj_asm(case, k))
+        obj = tools.assemble(ctx, f"# case {os.path.basename(d)}\n" + obj_asm(case, k))
         p = os.path.join(d, f"m{k}.o")
         write(p, open(obj, "rb").read())
         case["objpaths"].append(f"m{k}.o")
